@@ -164,7 +164,15 @@ impl Nullable for TrueName {
 
 impl Substitute for TrueName {
     fn substitute(&self, generics: &HashMap<Name, Name>, pos: Position) -> TypeResult<TrueName> {
+        // A placeholder replaced by one nullable type is itself nullable: List[Int?] holds Int?.
+        let arg_is_nullable = generics
+            .get(&Name::from(&self.variant))
+            .map_or(false, |name| {
+                name.names.len() == 1 && name.names.iter().all(|n| n.is_nullable && !n.is_null())
+            });
+
         Ok(TrueName {
+            is_nullable: self.is_nullable || arg_is_nullable,
             variant: self.variant.substitute(generics, pos)?,
             ..self.clone()
         })
